@@ -536,3 +536,84 @@ def followup_needs_open_browse(ctx, P, pre):
             "stop_browse purges the Resolve reruns") if (guarded_ or purged) else
            "a Resolve rerun queued before stop_browse still sends its question after SearchStopped: neither is it purged on stop nor does "
            "exec_command_resolve look at service_queriers before asking")
+
+
+# ------------------------------------------------------------------------------------------------
+def followup_chain_not_restarted(ctx, P, pre):
+    """`at most three follow-up queries for a newly found instance`: add_pending_resolve starts a chain only for an
+    instance that is not in pending_resolves, and the instance leaves that set when it resolves (or when no open browse
+    wants it).  In exec_command_resolve nothing removes the instance once the follow-up question may have been sent —
+    an unresolved instance whose three tries are used up must stay marked, or every later record about it starts three
+    more questions"""
+    f = P.one("Zeroconf::exec_command_resolve")
+    q = calls_to(f, "Zeroconf::query_unresolved")
+    ctx.require(len(q) == 1, pre + ".anchor", f.name + "|query_unresolved", f.loc(), "%d call(s)" % len(q))
+    if len(q) != 1:
+        return
+    after = f.reachable(q[0][0]) - {q[0][0]}
+    bad = [f.loc(b) for b, t in f.calls() if b in after and name_matches(cname(t), "HashSet::remove", "HashSet::take", "HashSet::clear", "HashSet::retain", "HashSet::drain")
+           and recv_mentions(P, f, b, t, "pending_resolves", "Zeroconf")]
+    ctx.ob(pre + ".followup-chain-not-restarted", f.name, not bad, f.loc(q[0][0]),
+           "after its question may have gone out the instance stays in pending_resolves until it resolves" if not bad else
+           "the instance is taken out of pending_resolves after its follow-up round (%s): the next record about the still unresolved instance "
+           "starts another chain of three questions" % bad)
+    # and the set really gates the chain
+    ap = P.one("Zeroconf::add_pending_resolve")
+    e_new = guard_edges(P, ap, lambda atom, outcome, bb: atom[0] == "call" and name_matches(strip_generics(atom[1]), "HashSet::contains", "HashSet::insert") and
+                        expr_mentions_field(atom, "pending_resolves", "Zeroconf"))
+    adds = calls_to(ap, "Zeroconf::add_retransmission")
+    ctx.ob(pre + ".followup-gated-by-pending", ap.name, bool(adds) and bool(e_new) and must_pass_edges(ap, adds[0][0], e_new), ap.loc(),
+           "a chain is started only after a test on pending_resolves")
+
+
+def _option_edges_implying(P, fn, base_edges):
+    """edges `Some` of switches on an Option-valued local whose `Some` definitions all sit behind base_edges (and whose other
+    definitions are `None`): taking the Some edge implies base_edges was taken"""
+    out = set()
+    for b in sorted(fn.live_blocks()):
+        t = fn.term(b)
+        if t["k"] != "switch" or "p" not in t["d"]:
+            continue
+        dl = t["d"]["p"]["l"]
+        src = None
+        for (db, di, kind, payload) in fn.defs().get(dl, []):
+            if kind == "assign" and payload["k"] == "discr" and not payload["p"]["proj"]:
+                src = (payload["p"]["l"], (db, di))
+        if src is None:
+            continue
+        defs = fn.reaching_defs(src[0], src[1])
+        somes, others_ok = [], True
+        for (db, di, kind, payload) in defs:
+            if kind == "assign" and payload["k"] == "aggregate" and str(payload.get("adt", "")).endswith("option::Option"):
+                if payload.get("vname") == "Some":
+                    somes.append(db)
+            else:
+                others_ok = False
+        if not somes or not others_ok:
+            continue
+        if all(must_pass_edges(fn, db, base_edges) for db in somes):
+            for (tgt, atom, outcome) in switch_edges(P, fn, b):
+                if atom[0] == "variant" and outcome == frozenset(["Some"]):
+                    out.add((b, tgt))
+    return out
+
+
+def verify_chain_is_finite(ctx, P, pre):
+    """verify() asks twice: the handler schedules its one repeat only on the run that came from the API call, never on
+    the repeat itself — a repeat that re-arms itself keeps one rerun and one query per second alive for as long as the
+    responder answers"""
+    f = P.one("Zeroconf::exec_command_verify")
+    idx = rerun_flag_param(P, f)
+    if idx is None:
+        idx = param_index(f, "repeating", "bool")
+    adds = calls_to(f, "Zeroconf::add_retransmission")
+    ctx.require(idx is not None and len(adds) >= 1, pre + ".anchor", f.name + "|repeat", f.loc(), "rerun flag and add_retransmission found")
+    if idx is None or not adds:
+        return
+    first = guard_edges(P, f, lambda atom, outcome, bb: atom == ("param", idx) and outcome is False)
+    edges = set(first) | _option_edges_implying(P, f, first)
+    for k, (b, t) in enumerate(adds):
+        ok = bool(first) and must_pass_edges(f, b, edges)
+        ctx.ob(pre + ".verify-repeats-once", "%s|add_retransmission#%d" % (f.name, k + 1), ok, f.loc(b),
+               "the repeat is scheduled only when the run is not itself a repeat" if ok else
+               "a repeated Verify schedules another repeat: the chain never ends while the records stay in the cache")
